@@ -132,11 +132,7 @@ func (s *searcher) decode(t *Ty, b []byte) (v reflect.Value, ok bool) {
 			ok = false
 		}
 	}()
-	if len(b) <= 64 {
-		defer inCall("dec " + t.String() + " " + hx.Hex(b))()
-	} else {
-		defer inCall("dec " + t.String() + " " + hx.Hex(b[:64]) + "…(" + strconv.Itoa(len(b)) + " bytes)")()
-	}
+	defer inCallF(func() string { return "dec " + t.String() + " " + hx.Hex(b) })()
 	pv := reflect.New(goType(t))
 	if err := rlp.DecodeBytes(b, pv.Interface()); err != nil {
 		return reflect.Value{}, false
@@ -247,6 +243,184 @@ func (s *searcher) splitCanonical(b []byte) {
 	}
 }
 
+// runIsolated executes op lines in a child process (`mode=exec`, flushed per line, own watchdog) and
+// returns one answer per op. An op the child dies in (runaway call) is answered `DIED <why>` and the
+// rest continues in a fresh child, so a decoder that never returns costs one child, not the search.
+func runIsolated(ops []string) []string {
+	out := make([]string, 0, len(ops))
+	self, err := os.Executable()
+	if err != nil {
+		return nil
+	}
+	dir, err := ioutil.TempDir("", "c08iso")
+	if err != nil {
+		return nil
+	}
+	defer os.RemoveAll(dir)
+	rest := ops
+	for restarts := 0; len(rest) > 0 && restarts < 8; restarts++ {
+		in, oo, ob := dir+"/in", dir+"/o", dir+"/b"
+		_ = ioutil.WriteFile(in, []byte(strings.Join(rest, "\n")+"\n"), 0644)
+		os.Remove(ob)
+		cmd := exec.Command(self, "mode=exec", "in="+in, "ops="+oo, "obs="+ob)
+		var so bytes.Buffer
+		cmd.Stdout = &so
+		done := make(chan error, 1)
+		if err := cmd.Start(); err != nil {
+			return out
+		}
+		go func() { done <- cmd.Wait() }()
+		select {
+		case <-done:
+		case <-time.After(120 * time.Second):
+			cmd.Process.Kill()
+			<-done
+		}
+		data, _ := ioutil.ReadFile(ob)
+		lines := strings.Split(strings.TrimRight(string(data), "\n"), "\n")
+		if len(data) == 0 {
+			lines = nil
+		}
+		if len(lines) > len(rest) {
+			lines = lines[:len(rest)]
+		}
+		out = append(out, lines...)
+		if len(lines) == len(rest) {
+			return out
+		}
+		why := "child exited without an answer"
+		for _, l := range strings.Split(so.String(), "\n") {
+			if strings.HasPrefix(l, "WATCHDOG ") {
+				why = l
+				if len(why) > 160 {
+					why = why[:160]
+				}
+			}
+		}
+		out = append(out, "DIED "+why)
+		rest = rest[len(lines)+1:]
+	}
+	for len(out) < len(ops) {
+		out = append(out, "SKIPPED")
+	}
+	return out
+}
+
+// constructed: inputs assembled from parts whose meaning is known by construction (no parser, no
+// package code in the expectation), with the answers every entry point has to give.
+type constructed struct{ op, want string }
+
+func (s *searcher) checkConstructed(cs []constructed) {
+	ops := make([]string, len(cs))
+	for i, c := range cs {
+		ops[i] = c.op
+	}
+	got := runIsolated(ops)
+	s.evals += len(cs)
+	for i, c := range cs {
+		if i >= len(got) {
+			break
+		}
+		switch {
+		case strings.HasPrefix(got[i], "DIED"):
+			s.finding("hang:call", c.op, "expected "+clip(c.want)+"; the call never returned / allocated without bound: "+got[i])
+		case got[i] == "SKIPPED":
+		case got[i] != c.want:
+			kind := strings.Fields(c.op)[0]
+			s.finding("constructed:"+kind, c.op, "by construction the answer is "+clip(c.want)+", the implementation says "+clip(got[i]))
+		}
+	}
+}
+
+// rawFamily: every tuple (length 1..3) over a pool of small items — empty string, empty list, single
+// bytes, short/long strings, nested lists — as a list, read through RawValue / Stream.Raw at every
+// position, alone and mixed with typed positions.
+func rawFamily(r *hx.Rng, thorough bool) []constructed {
+	pool := []interface{}{
+		[]byte{}, []interface{}{}, []byte{0x01}, []byte{0x80}, []byte("abc"),
+		[]interface{}{[]interface{}{}}, []interface{}{[]byte{}}, []interface{}{[]byte{0x05}, []byte{}},
+		bytes.Repeat([]byte{0xaa}, 56),
+	}
+	if thorough {
+		pool = append(pool, []byte{0x00}, []byte{0x7f}, bytes.Repeat([]byte{0x11}, 55), []interface{}{bytes.Repeat([]byte{0x22}, 60)})
+	}
+	text := func(it interface{}) string {
+		var sb []string
+		itemText(it, &sb)
+		return strings.Join(sb, ",")
+	}
+	var out []constructed
+	var tuples [][]interface{}
+	for _, a := range pool {
+		tuples = append(tuples, []interface{}{a})
+		for _, b := range pool {
+			tuples = append(tuples, []interface{}{a, b})
+			for _, c := range pool {
+				if thorough || r.Chance(1, 3) || len(specEncode(a))+len(specEncode(b)) <= 2 {
+					tuples = append(tuples, []interface{}{a, b, c})
+				}
+			}
+		}
+	}
+	for _, tup := range tuples {
+		n := len(tup)
+		encs := make([]string, n)
+		var payload []byte
+		for i, it := range tup {
+			e := specEncode(it)
+			encs[i] = "B" + hx.Hex(e)
+			payload = append(payload, e...)
+		}
+		list := append(canonHeader(0xc0, len(payload)), payload...)
+		lh := hx.Hex(list)
+		ln := "L" + strconv.Itoa(n)
+		raws := strings.Join(encs, ",")
+		out = append(out, constructed{"dec S,raw " + lh, "ok " + ln + "," + raws})
+		out = append(out, constructed{"dec R" + strconv.Itoa(n) + strings.Repeat(",raw", n) + " " + lh, "ok " + ln + "," + raws})
+		out = append(out, constructed{"dec R1,tail,S,raw " + lh, "ok L1," + ln + "," + raws})
+		if n >= 2 {
+			out = append(out, constructed{"dec R2,raw,tail,S,raw " + lh, "ok L2," + encs[0] + ",L" + strconv.Itoa(n-1) + "," + strings.Join(encs[1:], ",")})
+		}
+		// Stream: List, Raw × n, ListEnd
+		res := []string{"L:" + strconv.Itoa(len(payload))}
+		for _, e := range encs {
+			res = append(res, "R:"+e[1:])
+		}
+		res = append(res, "E")
+		out = append(out, constructed{"stream auto " + lh + " l" + strings.Repeat(",r", n) + ",e", strings.Join(res, ";") + " c=" + strconv.Itoa(len(list))})
+		// mixed positions: raw here, a typed reader there
+		tys := make([]string, n)
+		vals := make([]string, n)
+		sops := []string{"l"}
+		sres := []string{"L:" + strconv.Itoa(len(payload))}
+		for i, it := range tup {
+			b, isStr := it.([]byte)
+			switch {
+			case r.Chance(1, 2):
+				tys[i], vals[i] = "raw", encs[i]
+				sops, sres = append(sops, "r"), append(sres, "R:"+encs[i][1:])
+			case isStr:
+				tys[i], vals[i] = "bytes", "B"+hx.Hex(b)
+				sops, sres = append(sops, "b"), append(sres, "B:"+hx.Hex(b))
+			default:
+				tys[i], vals[i] = "any", text(it)
+				sops, sres = append(sops, "a"), append(sres, "A:"+text(it))
+			}
+		}
+		out = append(out, constructed{"dec R" + strconv.Itoa(n) + "," + strings.Join(tys, ",") + " " + lh, "ok " + ln + "," + strings.Join(vals, ",")})
+		sops, sres = append(sops, "e"), append(sres, "E")
+		out = append(out, constructed{"stream auto " + lh + " " + strings.Join(sops, ","), strings.Join(sres, ";") + " c=" + strconv.Itoa(len(list))})
+		// generic decoding of the same bytes
+		out = append(out, constructed{"any " + lh, "ok " + text(tup)})
+	}
+	for _, it := range pool {
+		e := specEncode(it)
+		out = append(out, constructed{"dec raw " + hx.Hex(e), "ok B" + hx.Hex(e)})
+		out = append(out, constructed{"stream auto " + hx.Hex(e) + " r,k", "R:" + hx.Hex(e) + ";!ioeof c=" + strconv.Itoa(len(e))})
+	}
+	return out
+}
+
 // sessions: sequences of calls on shared library state, checked against the one-call-at-a-time
 // answers of the implementation itself (each step re-computed in isolation afterwards).
 //   - every eb/ew/en/dr result must equal EncodeToBytes of the same value computed on its own
@@ -259,7 +433,7 @@ func (s *searcher) sessionOracle(line string) {
 	type exp struct{ enc []byte }
 	var got []string
 	ok := true
-	defer inCall(clip(line))()
+	defer inCall(line)()
 	res := hx.Guard(func() string {
 		for _, st := range steps {
 			r, k := ss.step(st)
@@ -455,7 +629,7 @@ func (s *searcher) historyOracle(r *hx.Rng, elem *Ty, n int) {
 		line := histOp(hx.NewRng(seed), o, elem, n) // same value for every order
 		s.evals++
 		w := strings.Fields(line)
-		done := inCall(clip(line))
+		done := inCall(line)
 		got := hx.Guard(func() string { return runHist(w[1], w[2], w[3], w[4], w[5]) })
 		done()
 		if strings.HasPrefix(got, "PANIC") {
@@ -607,6 +781,10 @@ func searchMain(a map[string]string) {
 		t, b = lead("R1,nil,P,S,u64", "c180")
 		s.canonical(t, b)
 	}
+
+	// inputs assembled from known parts, answers known by construction; run in a child process so that
+	// a decoder that never returns is reported with its input and the search goes on
+	s.checkConstructed(rawFamily(hx.NewRng(hx.SeedFromEnv()^0x7a3), thorough))
 
 	// process-local history (type cache), deterministic small family, before anything can loop
 	{
